@@ -92,6 +92,31 @@ pub fn hand_systems(w: u32) -> Vec<SysSpec> {
         bads: vec![T::bin(Bin::Eq, s("r1", w), s("d", w))],
         constraints: vec![],
     });
+    // shadow memories: several ARRAY states that read each other (simultaneous update of arrays),
+    // in both declaration orders, with a bit-vector state that reads the shadow
+    for reversed in [false, true] {
+        let mem = || T::sym("mem1_2", Ty::Arr(1, 2));
+        let sh = || T::sym("sh1_2", Ty::Arr(1, 2));
+        let old = || T::sym("old1_2", Ty::Arr(1, 2));
+        let zero = || T::AConst(1, Box::new(l(2, 0)));
+        let mut states = vec![
+            StateSpec { name: "mem1_2".into(), ty: Ty::Arr(1, 2), init: Some(zero()), next: Some(T::Store(Box::new(mem()), Box::new(s("ad", 1)), Box::new(s("da", 2)))) },
+            StateSpec { name: "sh1_2".into(), ty: Ty::Arr(1, 2), init: Some(zero()), next: Some(mem()) },
+            StateSpec { name: "old1_2".into(), ty: Ty::Arr(1, 2), init: Some(zero()), next: Some(sh()) },
+            StateSpec { name: "seen".into(), ty: Ty::Bv(2), init: Some(l(2, 0)), next: Some(T::Read(Box::new(sh()), Box::new(s("ad", 1)))) },
+        ];
+        if reversed {
+            states.reverse();
+        }
+        v.push(SysSpec {
+            name: if reversed { "shadowmem-rev".into() } else { "shadowmem".into() },
+            inputs: vec![("ad".into(), Ty::Bv(1)), ("da".into(), Ty::Bv(2))],
+            states,
+            outputs: vec![("o".into(), T::Read(Box::new(old()), Box::new(l(1, 1))))],
+            bads: vec![T::bin(Bin::Eq, sh(), old())],
+            constraints: vec![],
+        });
+    }
     v
 }
 
